@@ -176,6 +176,26 @@ def run_seq(case: dict) -> list[str]:
 # --------------------------------------------------------------------------------------------------
 # interleavings under the gate scheduler
 
+RECORDED = ("incr", "expire", "slice_incr", "is_locked", "exists", "set_lock")
+
+
+class NamedSched(Sched):
+    """schedule entries may also name the task to release: "t<i>" (caller i) or "c" (the clock task)"""
+
+    clock_id = None
+
+    def _next_choice(self, n):
+        if self.pos < len(self.schedule):
+            e = self.schedule[self.pos]
+            self.pos += 1
+            if isinstance(e, str):
+                ids = sorted(self.parked, key=repr)
+                tid = self.clock_id if e == "c" else int(e[1:])
+                return ids.index(tid) if tid in ids else 0
+            return e
+        return 0
+
+
 _current: dict = {"sched": None, "log": None}
 _gated_cls = None
 
@@ -241,7 +261,8 @@ def run_conc(case: dict, schedule=None):
     clock_id = n
     custom = style.get("action") == "custom"
     _gated_memory()
-    sched = Sched(case["schedule"] if schedule is None else schedule)
+    sched = NamedSched(case["schedule"] if schedule is None else schedule)
+    sched.clock_id = clock_id
     log: list[str] = []
     _current["sched"], _current["log"] = sched, log
     executed = [False] * n
@@ -298,7 +319,9 @@ def run_conc(case: dict, schedule=None):
         if tid == clock_id:
             if label[0] == "tick":          # (the clock task's own "start" release is not a step of the model)
                 steps.append(("tick", label[1]))
-        elif label in (("start",), ("body",)):
+        elif label[0] not in RECORDED:
+            # the caller's start, the body's suspension point, or a backend command the decorators are not known
+            # to issue (it then shows up as a step the model cannot match)
             steps.append(("step", tid, label[0]))
         else:
             if li >= len(log):
